@@ -215,4 +215,52 @@ def runFuel (m : NMachine S E) : Nat → Tracker → S → Option (NFRun S E)
 
 end NMachine
 
+/-! ## configuration path -/
+
+/-- the part of the `Environment` that matters: `fuel: Option<u64>` -/
+structure EnvCfg where
+  fuel : Option Nat
+  deriving Repr, DecidableEq
+
+/-- `Environment::set_fuel` -/
+def EnvCfg.setFuel (e : EnvCfg) (f : Option Nat) : EnvCfg := { e with fuel := f }
+
+/-- `Environment::clone` (`#[derive(Clone)]`) -/
+def EnvCfg.clone (e : EnvCfg) : EnvCfg := e
+
+/-- `State::new`: `fuel_tracker: ctx.env().fuel().map(FuelTracker::new)` — every evaluation gets
+    its own tracker, made from what the environment says at that moment -/
+def newTracker (e : EnvCfg) : Option Tracker := e.fuel.map Tracker.new
+
+/-- what the caller of an entry point gets: dispatched instructions, states, result, and
+    `State::fuel_levels()` (`None` without a budget) -/
+structure Render (S E : Type) where
+  trace : List String
+  states : List S
+  result : Except (FErr E) S
+  levels : Option (Nat × Nat)
+
+/-- the unlimited result as seen through the limited run's result type -/
+def sameResult {S E : Type} (r : Except E S) : Except (FErr E) S :=
+  match r with
+  | .ok s => .ok s
+  | .error e => .error (.other e)
+
+/-- any entry point (`Template::render*`, `Environment::render_str`, `Expression::eval`, …): they
+    all end in `vm::eval → Executor::eval → State::new` (tie `entry_points_reach_state_new`) -/
+def Machine.render {S E : Type} (m : Machine S E) (n : Nat) (e : EnvCfg) (s : S) : Option (Render S E) :=
+  match newTracker e with
+  | none => (m.run n s).map fun u =>
+      { trace := u.trace, states := u.states, result := sameResult u.result, levels := none }
+  | some t => (m.runFuel n t s).map fun f =>
+      { trace := f.trace, states := f.states, result := f.result,
+        levels := some (f.tracker.consumed, f.tracker.remainingFuel) }
+
+/-! ## call graph of the entry points (regenerated: `MJ.Gen.fuelEntryCalls`) -/
+
+/-- does `x` reach `target` in at most `fuel` call steps? -/
+def reaches (g : List (String × List String)) (target : String) : Nat → String → Bool
+  | 0, x => x == target
+  | n + 1, x => x == target || ((g.lookup x).getD []).any (reaches g target n)
+
 end MJ.Fuel
